@@ -1,0 +1,16 @@
+//go:build verif
+
+package segment
+
+import "sync/atomic"
+
+// VerifHook, when it holds a func(point string, arg any), is called at the
+// instrumentation points compiled in with the "verif" build tag. It exists only
+// for external verification harnesses and is absent from normal builds.
+var VerifHook atomic.Value
+
+func vhook(point string, arg any) {
+	if f, ok := VerifHook.Load().(func(string, any)); ok && f != nil {
+		f(point, arg)
+	}
+}
